@@ -14,7 +14,8 @@ for p in $(/venv/bin/python -B -c "import sys; sys.path.insert(0,'../harness'); 
   if [ ! -f props/Prop_$p.vo ]; then echo "setup: props/Prop_$p.vo did not build"; missing=1; fi
 done
 test $missing = 0
-if grep -rnE '\b(Admitted|admit|Axiom|Parameter|Conjecture)\b|Unset Guard|bypass_check' --include='*.v' . | grep -v '^\./gen/.*(\*' ; then
+cd ..
+if ! /venv/bin/python -B tools/forbidden_scan.py; then
   echo "setup: forbidden construct present"; exit 1
 fi
 echo "setup: ok"
